@@ -241,10 +241,13 @@ pub fn c08(tier: &str, seed: u64, known: &[String]) -> Report {
     let levels = if tier == "thorough" { 65536 } else { 4096 };
     let (m65, ma, m2020) = (m_srgb_d65(), m_adobe(), m_bt2020());
     let _ = seed;
-    for ch in 0..3 {
+    let mut rng = Rng::new(seed ^ 0xC08);
+    // ch 0..2: one channel swept, the others fixed; ch 3: the grey axis (three bitwise-equal channels); ch 4: seeded random triples
+    for ch in 0..5 {
         for i in 0..=levels {
             let t = i as f64 / levels as f64;
-            let mut e = [0.25, 0.5, 0.75]; e[ch] = t;
+            let mut e = [0.25, 0.5, 0.75];
+            if ch < 3 { e[ch] = t; } else if ch == 3 { e = [t, t, t]; } else { e = [rng.unit(), rng.unit(), rng.unit()]; }
             let chk = |rep: &mut Report, name: &str, got: [f64; 3], want: [f64; 3]| {
                 rep.check(name, maxabs3(got, want) <= 5e-6, || format!("encoded ({:e},{:e},{:e}) -> xyz ({:e},{:e},{:e}) want ({:e},{:e},{:e})", e[0], e[1], e[2], got[0], got[1], got[2], want[0], want[1], want[2]));
             };
@@ -253,7 +256,8 @@ pub fn c08(tier: &str, seed: u64, known: &[String]) -> Report {
             chk(&mut rep, "C08.rec709.reverse", v(Xyz::from(Rec709 { r: e[0], g: e[1], b: e[2] })), mul(&m65, [bt709_inv(e[0]), bt709_inv(e[1]), bt709_inv(e[2])]));
             chk(&mut rep, "C08.rec2020.reverse", v(Xyz::from(Rec2020 { r: e[0], g: e[1], b: e[2] })), mul(&m2020, [bt2020_inv(e[0]), bt2020_inv(e[1]), bt2020_inv(e[2])]));
             // PQ: luminance 0..10000 -> signal -> XYZ
-            let l = [2500.0, 5000.0, 7500.0].map(|q: f64| q); let mut l = l; l[ch] = 10000.0 * t;
+            let mut l = [2500.0, 5000.0, 7500.0];
+            if ch < 3 { l[ch] = 10000.0 * t; } else if ch == 3 { l = [10000.0 * t; 3]; } else { l = [10000.0 * rng.unit(), 10000.0 * rng.unit(), 10000.0 * rng.unit()]; }
             let got = v(Xyz::from(Rec2100 { r: l[0], g: l[1], b: l[2] }));
             let want = mul(&m2020, [pq_inv(l[0]), pq_inv(l[1]), pq_inv(l[2])]);
             rep.check("C08.rec2100.reverse", maxabs3(got, want) <= 5e-6, || format!("luminance ({:e},{:e},{:e}) -> xyz ({:e},{:e},{:e}) want ({:e},{:e},{:e})", l[0], l[1], l[2], got[0], got[1], got[2], want[0], want[1], want[2]));
